@@ -195,6 +195,7 @@ func cmdCheck(repo, prop, tier string) int {
 		}
 		if len(failed) > 0 && os.Getenv("ROSVC_NOREPLAY") == "" {
 			replayCorpus(repo, prop, failed, known)
+			replayDifferential(repo, failed)
 		}
 	}
 	var boundedList []map[string]interface{}
@@ -505,6 +506,21 @@ func cmdReplay(repo, path string) int {
 	defer os.RemoveAll(tmp)
 	exit := 0
 	for i, t := range rec.Tests {
+		if t["kind"] == "differential" {
+			diffs, total, commit, err := diffScenarios(repo)
+			if err != nil {
+				fmt.Println("differential replay:", err)
+				continue
+			}
+			fmt.Printf("== differential replay: %d scenarios on %s and on the verified tree %s: %d differ\n", total, repo, commit, len(diffs))
+			for _, d := range diffs {
+				fmt.Println(d)
+			}
+			if len(diffs) > 0 {
+				exit = 1
+			}
+			continue
+		}
 		ov := filepath.Join(tmp, fmt.Sprintf("ov%d.json", i))
 		os.WriteFile(ov, []byte(fmt.Sprintf(`{"Replace":{"%s/zz_rosvc_replay_test.go":"%s"}}`, repo, t["file"])), 0644)
 		cmd := exec.Command("go", "test", "-overlay", ov, "-vet=off", "-count=1", "-timeout", "120s", "-run", t["run"], "-v", ".")
@@ -517,4 +533,128 @@ func cmdReplay(repo, path string) int {
 		}
 	}
 	return exit
+}
+
+// ---------------------------------------------------------------------------
+// Differential replay: /verif/replay/diff_harness_test.go runs a fixed grid of concrete scenarios over the public
+// key-value / xattr / sub-document API and records what each one observably did. It is run (through -overlay) on the
+// tree under check and on the last verified tree (/verif/verified_commit, materialised with `git archive` in a scratch
+// directory). A scenario whose outcome differs is a concrete input on which the tree under check departs from the
+// behaviour that was proved; it is attached to the failed obligations of the functions that implement that API.
+
+var kvFamily = []string{"getRaw", "exists", "GetExpiry", "add", "set", "remove", "GetAndTouchRaw", "Incr", "WriteCas", "Update", "writeWithMeta",
+	"writeWithXattrs", "wwx.", "storeDocument", "removeXattrs", "removeUserXattrs", "DeleteWithXattrs", "DeleteSubDocPaths", "WriteUpdateWithXattrs",
+	"subdocWrite", "evalSubdocPath", "upsert", "macros.", "expandXattrMacros", "getRawWithXattrs", "GetWithXattrs", "GetXattrs", "withNewCas", "inTransaction",
+	"postNewEvent", "postEvent", "asFeedEvent", "setLastCas", "checkCasXattr", "Exists", "GetRaw", "AddRaw", "Add.", "SetRaw", "Set.", "Remove", "Delete",
+	"Touch", "touch.", "incr.", "SetWithMeta", "DeleteWithMeta", "SubdocInsert", "WriteSubDoc", "SetXattrs", "RemoveXattrs", "UpdateXattrs",
+	"WriteWithXattrs", "WriteTombstone", "WriteResurrection", "UpdateXattrDeleteBody", "schedule", "setNext", "hlc."}
+
+type diffOutcome struct {
+	Scenario string   `json:"scenario"`
+	Op       string   `json:"op"`
+	Pre      string   `json:"pre"`
+	Result   string   `json:"result"`
+	Row      string   `json:"row"`
+	Sibling  string   `json:"sibling"`
+	Events   []string `json:"events"`
+}
+
+func runDiffHarness(dir, out string) error {
+	ov := out + ".ov.json"
+	os.WriteFile(ov, []byte(fmt.Sprintf(`{"Replace":{"%s/zz_rosvc_diff_test.go":"%s"}}`, dir, filepath.Join(verifRoot, "replay", "diff_harness_test.go"))), 0644)
+	cmd := exec.Command("go", "test", "-overlay", ov, "-vet=off", "-count=1", "-timeout", "180s", "-run", "^TestRosvcDifferentialScenarios$", ".")
+	cmd.Dir = dir
+	cmd.Env = append(os.Environ(), "GOFLAGS=-mod=mod", "GOPROXY=off", "GOSUMDB=off", "GOTOOLCHAIN=local", "ROSVC_DIFF_OUT="+out)
+	if b, err := cmd.CombinedOutput(); err != nil {
+		if _, serr := os.Stat(out); serr != nil {
+			return fmt.Errorf("%v: %s", err, truncate(string(b), 300))
+		}
+	}
+	return nil
+}
+
+func replayDifferential(repo string, failed []*Obligation) {
+	var fam []*Obligation
+	for _, o := range failed {
+		for _, k := range kvFamily {
+			if strings.Contains(o.ID, k) || strings.Contains(o.Fn, k) {
+				fam = append(fam, o)
+				break
+			}
+		}
+	}
+	if len(fam) == 0 {
+		return
+	}
+	diffs, total, commit, err := diffScenarios(repo)
+	if err != nil || len(diffs) == 0 {
+		return
+	}
+	n := len(diffs)
+	if len(diffs) > 6 {
+		diffs = diffs[:6]
+	}
+	obs := fmt.Sprintf("differential replay (diff_harness_test.go, %d scenarios run on this tree and on the verified tree %s): %d scenario(s) behave differently; the first ones:\n%s\n",
+		total, commit[:min(10, len(commit))], n, strings.Join(diffs, "\n"))
+	for _, o := range fam {
+		o.Replayed = true
+		o.ReplayObs += obs
+		o.ReplayTests = append(o.ReplayTests, map[string]string{"file": filepath.Join(verifRoot, "replay", "diff_harness_test.go"), "run": "^TestRosvcDifferentialScenarios$", "kind": "differential"})
+	}
+}
+
+// diffScenarios runs the harness on the tree at repo and on the verified tree and returns the scenarios that differ.
+func diffScenarios(repo string) (diffs []string, total int, commit string, err error) {
+	data, err := os.ReadFile(filepath.Join(verifRoot, "verified_commit"))
+	if err != nil {
+		return nil, 0, "", err
+	}
+	commit = strings.TrimSpace(string(data))
+	tmp, err := os.MkdirTemp("", "rosvc-diff")
+	if err != nil {
+		return nil, 0, commit, err
+	}
+	defer os.RemoveAll(tmp)
+	base := filepath.Join(tmp, "verified")
+	os.MkdirAll(base, 0755)
+	if err := exec.Command("sh", "-c", fmt.Sprintf("git -C %s archive %s | tar -x -C %s", repo, commit, base)).Run(); err != nil {
+		return nil, 0, commit, fmt.Errorf("the verified commit %s is not in this repository", commit)
+	}
+	if _, err := os.Stat(filepath.Join(base, "go.mod")); err != nil {
+		return nil, 0, commit, fmt.Errorf("the verified commit %s is not in this repository", commit)
+	}
+	cur, ref := filepath.Join(tmp, "cur.json"), filepath.Join(tmp, "ref.json")
+	var e1, e2 error
+	var wg sync.WaitGroup
+	wg.Add(2)
+	go func() { defer wg.Done(); e1 = runDiffHarness(repo, cur) }()
+	go func() { defer wg.Done(); e2 = runDiffHarness(base, ref) }()
+	wg.Wait()
+	if e1 != nil {
+		return nil, 0, commit, e1
+	}
+	if e2 != nil {
+		return nil, 0, commit, e2
+	}
+	var a, b []diffOutcome
+	d1, _ := os.ReadFile(cur)
+	d2, _ := os.ReadFile(ref)
+	if json.Unmarshal(d1, &a) != nil || json.Unmarshal(d2, &b) != nil {
+		return nil, 0, commit, fmt.Errorf("the harness wrote no outcomes")
+	}
+	refBy := map[string]diffOutcome{}
+	for _, o := range b {
+		refBy[o.Scenario] = o
+	}
+	for _, o := range a {
+		r, ok := refBy[o.Scenario]
+		if !ok {
+			continue
+		}
+		if o.Result != r.Result || o.Row != r.Row || o.Sibling != r.Sibling || strings.Join(o.Events, ";") != strings.Join(r.Events, ";") {
+			diffs = append(diffs, fmt.Sprintf("scenario %q\n  this tree     : result=%s | row: %s | sibling: %s | events: %v\n  verified tree : result=%s | row: %s | sibling: %s | events: %v",
+				o.Scenario, o.Result, o.Row, o.Sibling, o.Events, r.Result, r.Row, r.Sibling, r.Events))
+		}
+	}
+	return diffs, len(a), commit, nil
 }
